@@ -32,6 +32,46 @@ func rangeIndexPhi(h *ssa.BasicBlock) (*ssa.Phi, ssa.Value) {
 	return nil, nil
 }
 
+// countedPhi finds the counter of a loop of the form `for i := 0; cond; i++` (starts at the constant
+// 0 on every entry edge, and every back edge carries counter + 1).
+func countedPhi(h *ssa.BasicBlock) *ssa.Phi {
+	for _, in := range h.Instrs {
+		p, ok := in.(*ssa.Phi)
+		if !ok {
+			break
+		}
+		if b, isBasic := p.Type().Underlying().(*types.Basic); !isBasic || b.Info()&types.IsInteger == 0 {
+			continue
+		}
+		good, back := true, 0
+		for i, pred := range h.Preds {
+			e := p.Edges[i]
+			if isBackEdge(pred, h) {
+				back++
+				add, isAdd := e.(*ssa.BinOp)
+				one := false
+				if isAdd && add.Op == token.ADD && add.X == p {
+					if c, isC := add.Y.(*ssa.Const); isC && c.Value != nil && c.Int64() == 1 {
+						one = true
+					}
+				}
+				if !one {
+					good = false
+				}
+			} else {
+				c, isC := e.(*ssa.Const)
+				if !isC || c.Value == nil || c.Int64() != 0 {
+					good = false
+				}
+			}
+		}
+		if good && back > 0 {
+			return p
+		}
+	}
+	return nil
+}
+
 // rangeIter finds the map iterator advanced in this loop header.
 func rangeIter(h *ssa.BasicBlock) *ssa.Range {
 	for _, in := range h.Instrs {
@@ -56,6 +96,11 @@ func (f *frame) loopEnv(li *loopInfo, phiVals map[*ssa.Phi]Val, st *State) *TEnv
 	if p, _ := rangeIndexPhi(h); p != nil {
 		if pv, ok := phiVals[p]; ok {
 			env.vars["#i"] = TV{T(SInt, "(+ %s 1)", asTerm(pv).S), nil}
+		}
+	} else if p := countedPhi(h); p != nil {
+		// `for i := 0; ...; i++`: the counter is the number of completed iterations, as #i of a range loop
+		if pv, ok := phiVals[p]; ok {
+			env.vars["#i"] = TV{asTerm(pv), nil}
 		}
 	}
 	if rg := rangeIter(h); rg != nil {
@@ -249,6 +294,12 @@ func (f *frame) enterLoop(b *ssa.BasicBlock, li *loopInfo, phiEntry map[*ssa.Phi
 		pv := asTerm(li.phiVals[p])
 		lv := asTerm(f.val(ln))
 		v.ctx.Assert(T(SBool, "(and (<= (- 1) %s) (< %s %s))", pv.S, pv.S, Ite(T(SBool, "(> %s 0)", lv.S), lv, IntLit(0)).S))
+	}
+	if p, _ := rangeIndexPhi(b); p == nil {
+		if cp := countedPhi(b); cp != nil {
+			// a counter that starts at 0 and only ever grows by one is never negative (integers are mathematical)
+			v.ctx.Assert(T(SBool, "(>= %s 0)", asTerm(li.phiVals[cp]).S))
+		}
 	}
 	// ---- assume the invariants for an arbitrary iteration
 	if li.spec != nil {
